@@ -15,11 +15,28 @@ def model_ctx(exec_arn, data):
             "StateMachine": {"Id": machgen.ARN + "m1", "Name": "m1"}}
 
 
-def model_line(machine, data, exec_arn, oracle, fuel=400, max_data=None):
+# the switches of the findings that are open: the model is asked for what the code does where it is known to deviate
+# (`Env.retryPastDeadline` = C08-F1), so that the comparison stays exact everywhere else
+_QUIRKS = None
+
+
+def open_quirks():
+    global _QUIRKS
+    if _QUIRKS is None:
+        _QUIRKS = sorted(f["model_switch"] for f in common.load_findings()
+                         if f.get("status") == "open" and f.get("model_switch") and f.get("model") == "Asl.run")
+    return _QUIRKS
+
+
+def model_line(machine, data, exec_arn, oracle, fuel=400, max_data=None, quirks=None):
     """the `interp run` line; `max_data` (small-limit mode) is the size limit of the engine run, passed to the
-    model as `Env.maxData` in an optional seventh field"""
+    model as `Env.maxData` in an optional seventh field ("-": the default); an eighth field names the switches of
+    open findings the model runs with (`quirks`; by default those of the findings that are open)"""
     line = "interp\trun\t%s\t%s\t%s\t%s\t%d" % (pj(machgen.for_model(machine)), pj(data),
                                                  pj(model_ctx(exec_arn, data)), pj(oracle), fuel)
+    q = open_quirks() if quirks is None else quirks
+    if q:
+        return line + "\t%s\t%s" % ("-" if max_data is None else "%d" % max_data, ",".join(q))
     return line if max_data is None else line + "\t%d" % max_data
 
 
@@ -320,6 +337,12 @@ def run(chk):
             # concurrent branches put the same question to the same worker at different instants: which of them gets the
             # worker's n-th answer is the arrival order, which the (branch by branch) reference semantics does not have
             chk.dist("oracle_order.not_compared")
+            continue
+        why = enginerun.time_limit_incomparable(c["machine"], m, r.requests)
+        if why:
+            # an execution time limit and a worker's reply due at the very instant it runs out (the engine's timer is armed
+            # through float epoch seconds), or a run of a minute or more (the engine's back stop)
+            chk.dist("time_limit.not_compared.%s" % why)
             continue
         if m.get("tieFail"):
             # several branches of one fan-out fail at the same instant (or an ItemSelector fails after earlier iterations
